@@ -16,6 +16,7 @@ type Clause struct {
 	ExplicitProps bool // the clause names its properties itself (a precondition then reports under those at call sites)
 	Kind  string // requires, ensures, invariant, decreases, lemma, axiom
 	Label string
+	After string // ensures only: the clause applies at the returns every path to which goes through a call to this callee
 	Props []string
 	Src   string
 	Expr  Expr
@@ -219,6 +220,13 @@ func (cs *ContractSet) LoadFile(path, pkgPath string) {
 		mkClause := func(kind, src string) *Clause {
 			props, src := splitProps(src)
 			label := ""
+			afterCallee := ""
+			if kind == "ensures" && strings.HasPrefix(src, "after ") {
+				r := strings.TrimSpace(src[6:])
+				if i := strings.IndexAny(r, " \t"); i > 0 {
+					afterCallee, src = r[:i], strings.TrimSpace(r[i+1:])
+				}
+			}
 			if m := labelRe.FindStringSubmatch(src); m != nil {
 				label = m[1]
 				src = src[len(m[0]):]
@@ -232,7 +240,7 @@ func (cs *ContractSet) LoadFile(path, pkgPath string) {
 				cs.errf(path, ll.line, "%v", err)
 				return nil
 			}
-			return &Clause{Kind: kind, Label: label, Props: props, ExplicitProps: explicit, Src: src, Expr: e, File: path, Line: ll.line}
+			return &Clause{Kind: kind, Label: label, After: afterCallee, Props: props, ExplicitProps: explicit, Src: src, Expr: e, File: path, Line: ll.line}
 		}
 		switch word {
 		case "func", "extern", "iface", "closure", "callback":
